@@ -222,6 +222,38 @@ Definition check40 (t : term) : term :=
   | _ => v_parse
   end.
 
+(* nesting of called types among the NON-zero parts of a value (a non-zero part of a decoded object was
+   necessarily produced by that many nested decoder calls; zero parts may never have been touched) *)
+Fixpoint need_nz (s : schema) (v : value) {struct v} : nat :=
+  if is_zero env false s v then O else
+  match v with
+  | VRef v' => match s with
+               | SRef id => match lookup env id with Some s' => S (need_nz s' v') | None => O end
+               | _ => O
+               end
+  | VSome v' => match s with SPtr e => need_nz e v' | _ => O end
+  | VList l => match s with
+               | SArray _ e | SSlice _ e => fold_right (fun x m => Nat.max (need_nz e x) m) O l
+               | _ => O
+               end
+  | VMap l => match s with
+              | SMap _ ks vs =>
+                  fold_right (fun (kv : value * value) m => let (k, x) := kv in Nat.max (Nat.max (need_nz ks k) (need_nz vs x)) m) O l
+              | _ => O
+              end
+  | VStruct vs =>
+      match s with
+      | SStruct fs =>
+          (fix go (fs : list (fhdr * schema)) (vs : list value) {struct vs} : nat :=
+             match fs, vs with
+             | (_, fsch) :: fs', v :: vs' => Nat.max (need_nz fsch v) (go fs' vs')
+             | _, _ => O
+             end) fs vs
+      | _ => O
+      end
+  | _ => O
+  end.
+
 (* some slice / map below the schema is declared `allocbound=-` *)
 Fixpoint has_unbounded (fuel : nat) : schema -> bool :=
   fix go (s : schema) : bool :=
@@ -249,9 +281,10 @@ Definition check41 (t : term) : term :=
           let out := parse_out tout in
           let m := decode_m id input in
           let detail := TL [res_term m] in
-          (* the property on the implementation's observation: no panic; declared bounds respected *)
+          (* the property on the implementation's observation: no panic; declared bounds respected; the decoded
+             object is nested at most AllowableDepth deep (C41_decode_depth on the observation) *)
           let spec_ok := match out with
-                         | OOk v _ => bounds_okb env s v
+                         | OOk v _ => bounds_okb env s v && Nat.leb (need_nz s v) max_depth
                          | OErr => true
                          | _ => false
                          end in
